@@ -54,7 +54,7 @@ def history(rng, nops):
 def annotate(e):
     parts = e["op"].split(":")
     e["kind"] = parts[0]
-    if parts[0] in ("allocate", "deallocate", "maxsize"):
+    if parts[0] in ("allocate", "deallocate", "maxsize", "rebind"):
         e["sz"], e["align"] = int(parts[1]), int(parts[2])
         if "a" in e:
             e["a"] = e["a"][:8]
@@ -110,6 +110,8 @@ def body(ctx):
     for t in TS:
         for a in ALIGNS:
             st.append("al maxsize:%d:%d - 0 - - - -" % (t, a))
+            for n in (1, 3, 17, 1000):
+                st.append("al rebind:%d:%d - %d %s - - -" % (t, a, n & 1, u64(n).ljust(64, b"\0").hex()))
     for a1, a2 in ((8, 8), (8, 16), (16, 8), (16, 16), (32, 64), (64, 64), (64, 32), (4096, 4096), (4096, 2048)):
         st.append("al alloc_eq:%d:%d - 0 - - - -" % (a1, a2))
     for n in (1, 2, 7, 64):
